@@ -1,7 +1,8 @@
 """C12 -- stream and file helpers hash exactly the bytes the reader delivered."""
+import re
 from .. import sym
 from ..norm import n, P, C, V, ANY, match, find_all
-from . import cmpmodel
+from . import cmpmodel, layout
 
 ID = "C12"
 CONFIGS = {"quick": ["K0"], "thorough": ["K0", "K8", "K15"]}
@@ -79,7 +80,9 @@ def loop_protocol(ctx, F):
     have_eof = False
     have_update = False
     for p in step:
-        if p.end in ("unreachable",):
+        if p.end in ("unreachable", "diverge"):
+            # a panicking cycle (slice index on a reader that over-reports, a debug assertion) produces no hash and no
+            # error value: it is C17's business, not part of the read/update/finalize protocol
             continue
         reads = [c for c in p.calls if c[1] == READ]
         if len(reads) != 1:
@@ -130,7 +133,7 @@ def loop_protocol(ctx, F):
                         match(("agg", "adt:core::result::Result::Ok", (V("x"),)), ret) is not None and bool(find_all(ret, lambda x: x == fin))
                         or (ret[0] == "call" and bool(find_all(ret, lambda x: x == fin))))
                     if not ok_ret:
-                        bad.append("value returned after finalize is %s" % sym.fmt(ret))
+                        bad.append("finalize-result: value returned after finalize is %s" % sym.fmt(ret))
                 elif p.end == "loop":
                     bad.append("n == 0 does not leave the loop")
             else:
@@ -143,17 +146,15 @@ def loop_protocol(ctx, F):
                 else:
                     have_update = True
                     ua = [n(x) for x in ups[0][2]]
-                    okw = False
-                    for py in pay:
-                        want = ("call", "<alloc::vec::Vec<T, A> as core::ops::Index<I>>::index", (("ref", buf), ("agg", "adt:core::ops::Range::Range", (C(0), py))))
-                        if ua[1] == want:
-                            okw = True
+                    # the slice handed to update() is buffer[0..n] in any spelling (0..n, ..n, a temporary)
+                    w = layout.window(ua[1], buf)
+                    okw = w is not None and w[0] == C(0) and w[1] in pay
                     if ua[0] != gen or not okw:
-                        bad.append("update(%s, %s) is not update(generator, &buffer[0..n]) for the n just read" % (sym.fmt(ua[0]), sym.fmt(ua[1])))
+                        bad.append("update-argument: update(%s, %s) is not update(generator, &buffer[0..n]) for the n just read" % (sym.fmt(ua[0]), sym.fmt(ua[1])))
         elif outcome == "Err":
             gcalls = [c for c in p.calls if "GeneratorType::" in c[1]]
             if gcalls:
-                bad.append("error edge touches the generator (%s)" % gcalls[0][1])
+                bad.append("error-edge-touches-generator: (%s)" % gcalls[0][1])
             epay = [("field", ("variant", rcall, "Err"), 0),
                     ("field", ("variant", ("call", "<core::result::Result<T, E> as core::ops::Try>::branch", (rcall,)), "Break"), 0)]
             # Interrupted test
@@ -194,7 +195,7 @@ def loop_protocol(ctx, F):
                 if okr:
                     have_err_exit = True
                 else:
-                    bad.append("error exit returns %s; reference Err(IOError(e)) with the reader's e" % sym.fmt(ret))
+                    bad.append("error-exit-value: error exit returns %s; reference Err(IOError(e)) with the reader's e" % sym.fmt(ret))
             else:
                 bad.append("error edge ends in %s" % p.end)
         else:
@@ -209,7 +210,9 @@ def loop_protocol(ctx, F):
     if not have_update:
         bad.append("no update on delivered bytes")
     for i, m in enumerate(sorted(set(bad))):
-        ctx.ob(r, (b.name, "protocol", m.split(" (")[0][:60]), False, m, cfg=F.key, where=b.where())
+        # key: the message up to its first embedded expression (stable across renumbered locals)
+        slug = m.split(": ")[0] if ": " in m[:40] else re.split(r" \(| is | returns ", m)[0].strip()[:60]
+        ctx.ob(r, (b.name, "protocol", slug), False, m, cfg=F.key, where=b.where())
     if not bad:
         ctx.ob(r, (b.name, "protocol"), True, "", cfg=F.key, where=b.where(), detail={"cycle_paths": len(step)})
     # From impls
